@@ -1,8 +1,11 @@
 #!/bin/bash
-# apply a seeded patch to /repo, run the given property checks, undo.  usage: tools/try_seed.sh <seed name> <prop>...
+# apply a seeded patch to /repo, run the given property checks, undo; evidence files are restored afterwards
+# usage: tools/try_seed.sh <seed name> <prop>...
 name=$1; shift
 cd /verif
+mkdir -p /tmp/ev_backup && cp evidence/*.json /tmp/ev_backup/ 2>/dev/null
 git -C /repo apply /verif/seeded/$name/patch.diff || { echo "patch does not apply"; exit 2; }
 for p in "$@"; do python3-vt -m rxvc check $p --tier quick 2>&1 | tail -8; echo "exit=$?"; done
 git -C /repo checkout -- .
+cp /tmp/ev_backup/*.json evidence/ 2>/dev/null
 git -C /repo status --short | head
